@@ -124,6 +124,11 @@ def gate_enum(model, rep):
             res = I.explore(lambda: I.call_function(fi.qual, [node, switch, ['keep']]))
             if any(r[0][0] not in ('return',) for r in res):
                 raise AnalysisError('UNDECIDED: %s(<%s>, %r, [..]) -> %s' % (fname, make, switch, [r[0] for r in res]))
+            if any(not isinstance(x, Obj) for x in pinned):
+                # the gate reaches the bindings through something this two-binding world does not have (an index, a helper): the rule is written
+                # against `node.bindings`; the gates are still decided on a real tree (gate_tree) and end to end (C09.E2E)
+                rep.note('C09.GATE enum for %s(switch=%r) not evaluated: the gate reads the bindings through an attribute other than node.bindings' % (fname, switch))
+                continue
             got = {id(x) for x in pinned}
             want = {id(b1), id(b2)} if switch is False else {id(b1)}
             rep.check(got == want, 'C09.GATE', fi.loc(), '%s(switch=%r) pins %d of 2 bindings' % (fname, switch, len(got)),
@@ -254,22 +259,42 @@ def frozen_end_to_end(model, rep):
             return None, 'printing: %s %s' % (kind, t)
         return t, None
     changed_controls = 0
+    from ..minrun import option_names
+    names = option_names(model)
+    NAMING = ('rename_locals', 'rename_globals', 'hoist_literals')
+    defaults = {}
+    for o in names:
+        d = mi.defaults().get(o)
+        defaults[o] = d.value if isinstance(d, ast.Constant) and isinstance(d.value, bool) else True
+    every = {o: True for o in names}
+    # (what is requested, the same request without the three options that rename or introduce names): "whatever options were requested"
+    configs = [('renaming and hoisting requested, every other option off', dict.fromkeys(NAMING, True), {})]
+    configs += [('only %s requested' % o, {o: True}, {}) for o in NAMING]
+    configs += [('the default options', dict(defaults), dict(defaults, **dict.fromkeys(NAMING, False))), ('every option on', dict(every), dict(every, **dict.fromkeys(NAMING, False)))]
     for (label, source, want) in TAINT_PROBES:
         src_ = source + FREEZE_TAIL
-        key = 'C09.E2E|' + label
-        off, err0 = text(src_)
-        on, err1 = text(src_, rename_locals=True, rename_globals=True, hoist_literals=True)
-        if err0 or err1:
-            rep.violation('C09.E2E', mi.loc(), 'trigger position: %s' % label, err1 or err0, key=key)
-            continue
-        if want:
-            rep.check(on == off, 'C09.E2E', mi.loc(), 'trigger position: %s, renaming and hoisting requested' % label, 'output identical to the one with those options off',
-                      'a module with a dynamic-name trigger in position `%s` is renamed / gets aliases: %r' % (label, on[:160]), key=key)
-        else:
-            changed_controls += on != off
-            rep.ok('C09.E2E', mi.loc(), 'control without a trigger: %s -> %s' % (label, 'renamed' if on != off else 'unchanged'), 'the probe is sensitive', key=key)
+        cache = {}
+
+        def text_c(opts):
+            k = tuple(sorted(opts.items()))
+            if k not in cache:
+                cache[k] = text(src_, **opts)
+            return cache[k]
+        for (cl, on_opts, off_opts) in configs:
+            key = 'C09.E2E|' + label + ('' if cl.startswith('renaming and hoisting') else '|' + cl)
+            off, err0 = text_c(off_opts)
+            on, err1 = text_c(on_opts)
+            if err0 or err1:
+                rep.violation('C09.E2E', mi.loc(), 'trigger position: %s, %s' % (label, cl), err1 or err0, key=key)
+                continue
+            if want:
+                rep.check(on == off, 'C09.E2E', mi.loc(), 'trigger position: %s, %s' % (label, cl), 'output identical to the one without renaming and hoisting',
+                          'a module with a dynamic-name trigger in position `%s` is renamed / gets aliases (%s): %r' % (label, cl, on[:160]), key=key)
+            elif cl.startswith('renaming and hoisting'):
+                changed_controls += on != off
+                rep.ok('C09.E2E', mi.loc(), 'control without a trigger: %s -> %s' % (label, 'renamed' if on != off else 'unchanged'), 'the probe is sensitive', key=key)
     rep.sensitive(changed_controls >= 3, 'none of the control modules without a trigger is renamed: the freeze rule cannot see anything')
-    rep.floor('C09.E2E', 25)
+    rep.floor('C09.E2E', 120)
 
 
 def trigger_positions(model, rep):
